@@ -1,1 +1,823 @@
-pub use crate::c18::DEF;
+//! C17 Schema front end is total: parse, diagnose, format never panic; diagnostics are
+//! repeatable; code generation is gated on the absence of errors and does not panic either.
+
+use crate::c18;
+use crate::front::{self, Input, Other};
+use crate::model::{Cfg, DocMode, Exports, Gen};
+use crate::print::{self, Style};
+use crate::repo;
+use crate::text;
+use aldrin_codegen::{Generator, Options, RustOptions};
+use aldrin_parser::{Diagnostic, Formatter, Parser, Renderer};
+use vcommon::{catch, mix, CheckDef, ClassPlan, Outcome, PassInfo, Tape, Tier};
+
+pub static DEF: CheckDef = CheckDef {
+    id: "C17",
+    level: "exploration",
+    rule: "Inputs are schema sets (main source + what the resolver offers) decoded from a proptest-generated tape: (soup) token soups over the grammar's alphabet - every keyword and punctuation token of grammar.pest, integer/string/uuid literals, identifiers incl. non-ASCII, the three comment introducers with markdown-ish text, CR / LF / CR LF / tab separators, multi-byte, zero-width and NUL characters - as raw token sequences, shuffled statement phrases, or both; (mutated) 1-4 token-, character- and doc-line-level mutations (delete, duplicate, swap, replace, insert, truncate, splice, markdown fragment into a doc/comment line) of an .aldrin file of the repository picked by the tape, with its sibling schemas resolvable; (advdoc) grammar-directed valid schemas (the C18 generator and layout printer) whose doc comments come from a markdown-adversarial generator (inline/reference/footnote links, images, tables, task lists, unbalanced backticks and brackets, links spanning lines, CR / NUL / tab inside lines, multi-byte characters adjacent to link boundaries, doc-link-shaped paths that do and do not resolve); (multi) a generated main schema importing 1-4 further schemas (generated clean/noisy, soups, mutated repository files; mutual and self imports) of which the resolver offers a random subset, some as unreadable files. Non-trivial = the main schema gets past the grammar (no invalid-syntax error for it) or >= 1 broken-doc-link warning is reported; distinct = distinct (main source, offered schemas).",
+    assumptions: &[
+        "panics are observed with the harness profile (debug assertions and overflow checks on), in-process under catch_unwind",
+        "repeatability is decided on the sorted multiset of renderings (all 8 renderer settings concatenated) of a second, independent Parser::parse of the same input",
+        "\"code generation only reachable without errors\": with errors, Generator::new + Generator::rust must not produce output (the assertion in Generator::new is the gate); the aldrin-gen CLI gate is sampled only when a built binary exists (VERIF_ALDRIN_GEN or <repo>/target/debug/aldrin-gen), otherwise counted as cli-skipped",
+        "inputs are bounded to a few KB (largest: an unmodified 17 KB repository file), so a hang cannot be mistaken for a violation; the runner's watchdog reports exit 2",
+    ],
+    plan,
+    case,
+    render,
+    crashy: true,
+    floors: &[
+        ("past-grammar", 0.35),
+        ("syntax-error", 0.15),
+        ("doc-link-warning", 0.15),
+        ("codegen-ran", 0.08),
+        ("codegen-gated", 0.25),
+        ("formatted", 0.35),
+        ("has-cr", 0.10),
+        ("has-multibyte", 0.15),
+        ("multi:missing-import", 0.03),
+        ("multi:io-error", 0.005),
+        ("other-schema-warning", 0.01),
+    ],
+    extra: None,
+    extra_coverage: Some(extra_coverage),
+};
+
+fn plan(t: Tier) -> Vec<ClassPlan> {
+    let k = match t {
+        Tier::Quick => 1,
+        Tier::Thorough => 30,
+    };
+    vec![
+        ClassPlan { class: "soup", cases: 8_000 * k, min_len: 0, max_len: 300 },
+        ClassPlan { class: "mutated", cases: 8_000 * k, min_len: 2, max_len: 120 },
+        ClassPlan { class: "advdoc", cases: 8_000 * k, min_len: 8, max_len: 900 },
+        ClassPlan { class: "multi", cases: 4_000 * k, min_len: 8, max_len: 1200 },
+    ]
+}
+
+fn extra_coverage(_t: Tier) -> serde_json::Value {
+    serde_json::json!({
+        "repo_files": repo::files().len(),
+        "repo_root": vcommon::repo_root().to_string_lossy(),
+        "cli_binary": cli_binary().map(|p| p.to_string_lossy().to_string()),
+    })
+}
+
+// ---------------------------------------------------------------------------------------------
+// token soups
+
+const KEYWORDS: &[&str] = &[
+    "import", "struct", "enum", "service", "fn", "event", "const", "newtype", "u8", "i8", "u16", "i16", "u32", "i32", "u64", "i64",
+    "string", "uuid", "object_id", "service_id", "bool", "f32", "f64", "value", "box", "vec", "bytes", "map", "set", "required",
+    "option", "version", "args", "ok", "err", "sender", "receiver", "lifetime", "unit", "result", "fallback",
+];
+const PUNCT: &[&str] = &[";", "=", "(", ")", "<", ">", "->", "::", "#", "[", "]", ",", "{", "}", "@", "!", "#[", "#![", "-", ":", "/", "\"", "\\"];
+const LITERALS: &[&str] = &[
+    "0", "1", "-1", "007", "4294967295", "4294967296", "99999999999999999999", "\"\"", "\"abc\"", "\"a\\\\b\"", "\"a\\\"b\"",
+    "\"\\n\"", "\"unterminated", "\"\u{e4}\\\u{e4}\"", "00000000-0000-0000-0000-000000000000",
+    "ABCDEF01-2345-6789-abcd-ef0123456789", "0000000-0000-0000-0000-000000000000", "\"a\rb\"",
+];
+const IDENTS: &[&str] = &[
+    "Foo", "Bar", "a", "b", "x1", "_", "_a", "foo_bar", "\u{e4}\u{f6}", "\u{4e2d}", "A", "N", "main", "self", "u8x", "requiredfoo",
+    "structs", "e\u{301}", "a\u{200d}b",
+];
+const SEPS: &[&str] = &[" ", "", "\n", "\r\n", "\r", "\t", "  ", "\n\n", " ", " "];
+const ODD_CHARS: &[&str] = &[
+    "\u{e4}", "\u{1F600}", "\u{200b}", "\u{200d}", "\u{feff}", "\u{a0}", "\0", "\u{2028}", "\u{85}", "\x0b", "\x0c", "\u{202e}",
+    "\u{fffd}", "\u{10ffff}", "\x7f", "\x1b[0m", "`", "$", "%", "^", "&", "*", "|", "~", "?", "'",
+];
+const PHRASES: &[&str] = &[
+    "struct Foo {", "struct Bar {}", "enum E {", "enum Kind {}", "}", "a @ 1 = u8;", "required b @ 2 = string;", "c @ 3 = option<Foo>;",
+    "d @ 3 = map<u8 -> vec<Bar>>;", "e @ 4 = [u8; N];", "f @ 5 = result<unit, a::Foo>;", "A @ 1;", "B @ 2 = Foo;", "B @ 2;",
+    "unknown = fallback;", "import a;", "import b;", "import main;", "const N = u32(4);", "const S = string(\"x\");",
+    "const U = uuid(00000000-0000-0000-0000-000000000001);", "newtype T = u8;", "newtype T = T;", "service Svc {",
+    "uuid = 11111111-1111-4111-8111-111111111111;", "version = 1;", "fn f @ 1;", "fn g @ 2 = u8;", "fn h @ 3 {", "args = struct {",
+    "ok = enum {", "err = Foo;", "args = u8;", "event e @ 1;", "event e2 @ 2 = struct {", "fn x = fallback;", "event y = fallback;",
+    "#[rust(impl_copy)]", "#![rust(impl_eq,)]", "struct Foo { a @ 1 = Foo; }", "enum E { A @ 1 = E; }", "newtype A = box<A>;",
+    "struct R { a @ 1 = option<R>; }", "a @ 4294967295 = u8;", "a @ 1 = u8;",
+];
+
+fn soup_comment(t: &mut Tape) -> String {
+    let intro = text::ps(t, &["//", "///", "//!", "////", "//!!", "// ", "/// ", "//! "]);
+    let body = match t.below(5) {
+        0 => String::new(),
+        1 => text::comment_line(t),
+        2 => text::doc_line(t),
+        _ => text::adversarial_block(t).join(" "),
+    };
+    let end = text::ps(t, &["\n", "\r\n", "\n", "\r", ""]);
+    format!("{intro}{body}{end}")
+}
+
+fn soup_token(t: &mut Tape) -> String {
+    match t.weighted(&[8, 8, 3, 4, 3, 2]) {
+        0 => text::ps(t, KEYWORDS).to_string(),
+        1 => text::ps(t, PUNCT).to_string(),
+        2 => text::ps(t, LITERALS).to_string(),
+        3 => text::ps(t, IDENTS).to_string(),
+        4 => soup_comment(t),
+        _ => text::ps(t, ODD_CHARS).to_string(),
+    }
+}
+
+fn soup(t: &mut Tape) -> String {
+    let mode = t.below(3);
+    let n = t.below(70);
+    let mut s = String::new();
+    for _ in 0..n {
+        let phrase = match mode {
+            0 => true,
+            1 => false,
+            _ => t.chance(150),
+        };
+        if phrase {
+            if t.chance(50) {
+                s.push_str(&soup_comment(t));
+            } else {
+                s.push_str(text::ps(t, PHRASES));
+            }
+            s.push_str(text::ps(t, &["\n", "\n", " ", "\r\n", "", "\n    "]));
+        } else {
+            s.push_str(&soup_token(t));
+            s.push_str(text::ps(t, SEPS));
+        }
+        if s.len() > 4000 {
+            break;
+        }
+    }
+    s
+}
+
+// ---------------------------------------------------------------------------------------------
+// mutations of repository files
+
+/// Rough lexer: words, line comments (incl. their line ending), white-space runs, single
+/// punctuation characters.
+fn lex(src: &str) -> Vec<&str> {
+    let b = src.as_bytes();
+    let mut out = vec![];
+    let mut i = 0;
+    while i < b.len() {
+        let start = i;
+        let c = src[i..].chars().next().unwrap();
+        if src[i..].starts_with("//") {
+            while i < b.len() && b[i] != b'\n' {
+                i += 1;
+            }
+            if i < b.len() {
+                i += 1;
+            }
+        } else if c.is_alphanumeric() || c == '_' {
+            while i < b.len() {
+                let c = src[i..].chars().next().unwrap();
+                if c.is_alphanumeric() || c == '_' {
+                    i += c.len_utf8();
+                } else {
+                    break;
+                }
+            }
+        } else if c.is_whitespace() {
+            while i < b.len() {
+                let c = src[i..].chars().next().unwrap();
+                if c.is_whitespace() {
+                    i += c.len_utf8();
+                } else {
+                    break;
+                }
+            }
+        } else {
+            i += c.len_utf8();
+        }
+        out.push(&src[start..i]);
+    }
+    out
+}
+
+fn char_boundary_at(s: &str, mut i: usize) -> usize {
+    i = i.min(s.len());
+    while !s.is_char_boundary(i) {
+        i -= 1;
+    }
+    i
+}
+
+/// For files above 6 KB three out of four cases work on a window of top-level chunks (<= 4 KB).
+fn window(src: &str, t: &mut Tape) -> String {
+    if src.len() <= 6000 || t.below(4) == 0 {
+        return src.to_string();
+    }
+    // chunk boundaries: a blank line followed by a line starting at column 0
+    let mut cuts = vec![0usize];
+    let mut pos = 0;
+    for l in src.split_inclusive('\n') {
+        pos += l.len();
+        if l.trim().is_empty() {
+            if let Some(c) = src[pos..].chars().next() {
+                if !c.is_whitespace() && c != '}' {
+                    cuts.push(pos);
+                }
+            }
+        }
+    }
+    cuts.push(src.len());
+    let start = t.below(cuts.len() - 1);
+    let mut end = start + 1;
+    while end + 1 < cuts.len() && cuts[end + 1] - cuts[start] <= 4000 {
+        end += 1;
+    }
+    src[cuts[start]..cuts[end]].to_string()
+}
+
+fn random_insert(t: &mut Tape) -> String {
+    match t.below(6) {
+        0 => text::ps(t, KEYWORDS).to_string(),
+        1 => text::ps(t, PUNCT).to_string(),
+        2 => text::ps(t, LITERALS).to_string(),
+        3 => text::ps(t, IDENTS).to_string(),
+        4 => text::ps(t, ODD_CHARS).to_string(),
+        _ => text::ps(t, &["\r", "\n", "\r\n", "\t", " ", "//", "///", "//!", "/// [", "//! [Foo]\n"]).to_string(),
+    }
+}
+
+fn mutate_once(src: &str, t: &mut Tape, all: &[repo::RepoFile]) -> String {
+    let toks = lex(src);
+    let join = |v: Vec<&str>| v.concat();
+    match t.below(12) {
+        // token level
+        0 if !toks.is_empty() => {
+            let i = t.below(toks.len());
+            let mut v = toks.clone();
+            v.remove(i);
+            join(v)
+        }
+        1 if !toks.is_empty() => {
+            let i = t.below(toks.len());
+            let mut v = toks.clone();
+            v.insert(i, toks[i]);
+            join(v)
+        }
+        2 if toks.len() >= 2 => {
+            let i = t.below(toks.len() - 1);
+            let mut v = toks.clone();
+            // swap with the next non-white-space token
+            let mut j = i + 1;
+            while j + 1 < v.len() && v[j].trim().is_empty() {
+                j += 1;
+            }
+            v.swap(i, j);
+            join(v)
+        }
+        3 if !toks.is_empty() => {
+            let i = t.below(toks.len());
+            let r = random_insert(t);
+            let mut v: Vec<String> = toks.iter().map(|s| s.to_string()).collect();
+            v[i] = r;
+            v.concat()
+        }
+        4 => {
+            let i = t.below(toks.len() + 1);
+            let r = random_insert(t);
+            let mut v: Vec<String> = toks.iter().map(|s| s.to_string()).collect();
+            v.insert(i, r);
+            v.concat()
+        }
+        // character level
+        5 if !src.is_empty() => {
+            let i = char_boundary_at(src, t.below(src.len()));
+            let c = src[i..].chars().next().map_or(0, |c| c.len_utf8());
+            format!("{}{}", &src[..i], &src[i + c..])
+        }
+        6 => {
+            let i = char_boundary_at(src, t.below(src.len() + 1));
+            format!("{}{}{}", &src[..i], text::ps(t, ODD_CHARS), &src[i..])
+        }
+        7 if !src.is_empty() => {
+            // truncate
+            let i = char_boundary_at(src, t.below(src.len()));
+            src[..i].to_string()
+        }
+        8 => {
+            // splice: prefix of this file + suffix of another
+            let o = &all[t.below(all.len())].text;
+            let i = char_boundary_at(src, t.below(src.len() + 1));
+            let j = char_boundary_at(o, t.below(o.len() + 1));
+            let tail = &o[j..];
+            let tail = &tail[..char_boundary_at(tail, 3000)];
+            format!("{}{}", &src[..i], tail)
+        }
+        9 => {
+            // line endings: LF -> CR LF / lone CR on some lines
+            let mut out = String::new();
+            for l in src.split_inclusive('\n') {
+                if l.ends_with('\n') && !l.ends_with("\r\n") && t.chance(80) {
+                    out.push_str(&l[..l.len() - 1]);
+                    out.push_str(text::ps(t, &["\r\n", "\r", "\r\r\n"]));
+                } else {
+                    out.push_str(l);
+                }
+            }
+            out
+        }
+        // doc-line level: keeps the syntax valid, attacks the markdown handling
+        _ => {
+            let lines: Vec<&str> = src.split_inclusive('\n').collect();
+            let doc_lines: Vec<usize> = lines
+                .iter()
+                .enumerate()
+                .filter(|(_, l)| l.trim_start().starts_with("///") || l.trim_start().starts_with("//!"))
+                .map(|(i, _)| i)
+                .collect();
+            let block = text::adversarial_block(t);
+            let mut out = String::new();
+            if doc_lines.is_empty() || t.chance(60) {
+                // new docs: a header block, or a doc block in front of a top-level definition
+                let defs: Vec<usize> = lines
+                    .iter()
+                    .enumerate()
+                    .filter(|(_, l)| {
+                        ["struct ", "enum ", "service ", "const ", "newtype "].iter().any(|k| l.starts_with(k))
+                    })
+                    .map(|(i, _)| i)
+                    .collect();
+                if defs.is_empty() || t.chance(60) {
+                    for b in &block {
+                        out.push_str("//!");
+                        out.push_str(b);
+                        out.push('\n');
+                    }
+                    out.push_str(src);
+                } else {
+                    let at = defs[t.below(defs.len())];
+                    for (i, l) in lines.iter().enumerate() {
+                        if i == at {
+                            for b in &block {
+                                out.push_str("///");
+                                out.push_str(b);
+                                out.push('\n');
+                            }
+                        }
+                        out.push_str(l);
+                    }
+                }
+            } else {
+                // splice a fragment into an existing doc line
+                let at = doc_lines[t.below(doc_lines.len())];
+                for (i, l) in lines.iter().enumerate() {
+                    if i == at {
+                        let body_end = l.trim_end_matches(['\n', '\r']).len();
+                        let intro = l.find("//").unwrap_or(0) + 3;
+                        let k = char_boundary_at(l, intro + t.below(body_end.saturating_sub(intro) + 1));
+                        out.push_str(&l[..k]);
+                        out.push_str(&block[0]);
+                        out.push_str(&l[k..]);
+                    } else {
+                        out.push_str(l);
+                    }
+                }
+            }
+            out
+        }
+    }
+}
+
+fn mutated(t: &mut Tape) -> (usize, Input) {
+    let files = repo::files();
+    let idx = t.below(files.len());
+    let f = &files[idx];
+    let mut src = window(&f.text, t);
+    let n = 1 + t.below(4);
+    for _ in 0..n {
+        src = mutate_once(&src, t, files);
+        if src.len() > 24_000 {
+            src.truncate(char_boundary_at(&src, 24_000));
+        }
+    }
+    let subset = t.u8();
+    let others = repo::siblings(idx)
+        .into_iter()
+        .enumerate()
+        .filter(|(i, _)| subset == 0 || (mix(subset as u64, *i as u64) & 3) != 0)
+        .map(|(_, (name, s))| Other { name, source: Some(s) })
+        .collect();
+    (idx, Input { name: f.stem.clone(), source: src, others })
+}
+
+// ---------------------------------------------------------------------------------------------
+// multi-schema sets
+
+const MAIN_NAMES: &[&str] = &["main", "my_schema", "Main", "x1", "struct", "self", "m_\u{e4}", "1x", "a"];
+
+fn multi(t: &mut Tape) -> Input {
+    let n = 1 + t.below(4);
+    let names = ["a", "b", "c", "other"];
+    let mut importable: Vec<Exports> = vec![];
+    let mut others: Vec<Other> = vec![];
+    for (i, name) in names.iter().enumerate().take(n) {
+        let avail = t.weighted(&[6, 3, 1]);
+        let kind = t.weighted(&[4, 3, 1, 1]);
+        let source = match kind {
+            0 | 1 => {
+                let cfg = Cfg {
+                    noise: if kind == 0 { 0 } else { 1 + t.below(2) as u8 },
+                    docs: match t.below(3) {
+                        0 => DocMode::None,
+                        1 => DocMode::Plain,
+                        _ => DocMode::Adversarial,
+                    },
+                    comments: t.below(3) as u8,
+                    max_defs: 4,
+                    importable: importable.clone(),
+                    schema_index: (i + 1) as u32,
+                };
+                let st = if t.bool() { Style::from_tape(t) } else { Style::plain() };
+                let mut g = Gen::new(t, cfg);
+                let m = g.schema(name);
+                importable.push(g.exports.clone());
+                print::print(&m, st)
+            }
+            2 => soup(t),
+            _ => mutated(t).1.source,
+        };
+        match avail {
+            0 => others.push(Other { name: name.to_string(), source: Some(source) }),
+            1 => {}
+            _ => others.push(Other { name: name.to_string(), source: None }),
+        }
+    }
+    let cfg = Cfg {
+        noise: t.weighted(&[4, 3, 2]) as u8,
+        docs: if t.bool() { DocMode::Adversarial } else { DocMode::Plain },
+        comments: t.below(3) as u8,
+        max_defs: 5,
+        importable,
+        schema_index: 0,
+    };
+    let st = Style::from_tape(t);
+    let main_name = if t.chance(40) { text::ps(t, MAIN_NAMES) } else { "main" };
+    let mut g = Gen::new(t, cfg);
+    let m = g.schema(main_name);
+    Input { name: main_name.to_string(), source: print::print(&m, st), others }
+}
+
+fn input_of(class: &str, tape: &[u8]) -> Input {
+    let mut t = Tape::new(tape);
+    match class {
+        "soup" => Input::single("main", soup(&mut t)),
+        "mutated" => mutated(&mut t).1,
+        "advdoc" => {
+            let clean = t.bool();
+            c18::generate(&mut t, Some(DocMode::Adversarial), clean).input
+        }
+        "multi" => multi(&mut t),
+        // raw source text (hand-written replays, corpus files)
+        _ => Input::single("main", String::from_utf8_lossy(tape).into_owned()),
+    }
+}
+
+fn render(class: &str, tape: &[u8]) -> String {
+    input_of(class, tape).render()
+}
+
+// ---------------------------------------------------------------------------------------------
+// oracle
+
+fn renderers() -> Vec<(&'static str, Renderer)> {
+    let mut v = vec![];
+    for (name, color, unicode, width) in [
+        ("plain-ascii-100", false, false, 100usize),
+        ("plain-ascii-20", false, false, 20),
+        ("plain-unicode-100", false, true, 100),
+        ("plain-unicode-20", false, true, 20),
+        ("color-ascii-100", true, false, 100),
+        ("color-ascii-20", true, false, 20),
+        ("color-unicode-100", true, true, 100),
+        ("color-unicode-20", true, true, 20),
+    ] {
+        v.push((name, Renderer::new(color, unicode, width)));
+    }
+    v
+}
+
+struct Run {
+    parser: Parser,
+    /// One entry per diagnostic: all renderings concatenated.
+    rendered: Vec<String>,
+    titles: Vec<String>,
+}
+
+fn run_front(input: &Input, pass: &str) -> Result<Run, Outcome> {
+    let parser = match catch(|| front::parse(input)) {
+        Ok(p) => p,
+        Err(p) => {
+            return Err(Outcome::fail(
+                format!("panic:parse:{}", p.location()),
+                format!("Parser::parse panicked ({pass} run): {}", p.0),
+            ))
+        }
+    };
+    let rs = renderers();
+    let mut rendered = vec![];
+    let mut titles = vec![];
+    for d in front::diagnostics(&parser) {
+        let mut all = format!("{} [{}]\n", front::kind_name(d.kind()), d.schema_name());
+        for (i, (name, r)) in rs.iter().enumerate() {
+            match catch(|| r.render(d, &parser)) {
+                Ok(s) => {
+                    if i == 0 {
+                        titles.push(front::title_of(&s));
+                    }
+                    all.push_str(&s);
+                    all.push('\n');
+                }
+                Err(p) => {
+                    return Err(Outcome::fail(
+                        format!("panic:render:{}", p.location()),
+                        format!("Renderer::render ({name}) panicked ({pass} run): {}", p.0),
+                    ))
+                }
+            }
+        }
+        rendered.push(all);
+    }
+    Ok(Run { parser, rendered, titles })
+}
+
+fn cli_binary() -> Option<std::path::PathBuf> {
+    let p = match std::env::var_os("VERIF_ALDRIN_GEN") {
+        Some(p) => std::path::PathBuf::from(p),
+        None => vcommon::repo_root().join("target/debug/aldrin-gen"),
+    };
+    if p.is_file() {
+        Some(p)
+    } else {
+        None
+    }
+}
+
+/// Runs `aldrin-gen rust` on the case's files; Ok(true) = checked, Ok(false) = not applicable.
+fn cli_gate(bin: &std::path::Path, input: &Input) -> Result<bool, Outcome> {
+    let plain = |n: &str| !n.is_empty() && n.chars().all(|c| c.is_ascii_alphanumeric() || c == '_');
+    if !plain(&input.name) || input.others.iter().any(|o| o.source.is_none() || !plain(&o.name)) {
+        return Ok(false);
+    }
+    let dir = vcommon::verif_root().join("work").join("C17").join(format!("cli-{}", std::process::id()));
+    let _ = std::fs::remove_dir_all(&dir);
+    let inc = dir.join("inc");
+    let out = dir.join("out");
+    if std::fs::create_dir_all(&inc).is_err() || std::fs::create_dir_all(&out).is_err() {
+        return Ok(false);
+    }
+    let main = dir.join(format!("{}.aldrin", input.name));
+    if std::fs::write(&main, &input.source).is_err() {
+        return Ok(false);
+    }
+    for o in &input.others {
+        if o.name == input.name {
+            continue;
+        }
+        let _ = std::fs::write(inc.join(format!("{}.aldrin", o.name)), o.source.as_ref().unwrap());
+    }
+    let res = std::process::Command::new(bin)
+        .arg("rust")
+        .arg("-I")
+        .arg(&inc)
+        .arg("--output")
+        .arg(&out)
+        .arg(&main)
+        .stdin(std::process::Stdio::null())
+        .stdout(std::process::Stdio::null())
+        .stderr(std::process::Stdio::null())
+        .status();
+    let status = match res {
+        Ok(s) => s,
+        Err(_) => return Ok(false),
+    };
+    let written: Vec<String> = std::fs::read_dir(&out)
+        .map(|rd| rd.filter_map(|e| e.ok().map(|e| e.file_name().to_string_lossy().to_string())).collect())
+        .unwrap_or_default();
+    let _ = std::fs::remove_dir_all(&dir);
+    if status.success() || !written.is_empty() {
+        return Err(Outcome::fail(
+            "codegen-gate:cli-generates-with-errors",
+            format!("aldrin-gen rust on a schema with errors: exit status {:?}, files written {:?}", status.code(), written),
+        ));
+    }
+    Ok(true)
+}
+
+fn case(class: &str, tape: &[u8], _strict: bool) -> Outcome {
+    let input = input_of(class, tape);
+    check(&input)
+}
+
+const STACK: usize = 8 << 20;
+
+/// Runs `f` on a fresh 8 MiB thread with the process' randomness (hence every `HashMap`
+/// iteration order inside the code under test) derived from `seed`, so that a case's outcome is a
+/// pure function of its tape although the parser iterates over hash maps.
+fn seeded<R: Send + 'static>(seed: u64, f: impl FnOnce() -> Result<R, Outcome> + Send + 'static) -> Result<R, Outcome> {
+    match vcommon::with_det_seed(seed, STACK, f) {
+        Ok(r) => r,
+        Err(_) => {
+            let p = vcommon::last_panic_any_thread();
+            Err(Outcome::fail(format!("harness-or-sut-panic:{}", p.location()), format!("uncaught panic on the case thread: {}", p.0)))
+        }
+    }
+}
+
+struct First {
+    rendered: Vec<String>,
+    classes: Vec<&'static str>,
+    nontrivial: bool,
+}
+
+/// Title with the quoted parts and digits removed: the *kind* of a diagnostic, for signatures.
+fn title_kind(rendered: &str) -> String {
+    let title = rendered.lines().nth(1).unwrap_or("");
+    let mut out = String::new();
+    let mut quoted = false;
+    for c in title.chars() {
+        if c == '`' {
+            quoted = !quoted;
+            continue;
+        }
+        if quoted || c.is_ascii_digit() {
+            continue;
+        }
+        out.push(if c == ' ' { '-' } else { c });
+    }
+    while out.contains("--") {
+        out = out.replace("--", "-");
+    }
+    out.trim_matches('-').chars().take(60).collect()
+}
+
+pub fn check(input: &Input) -> Outcome {
+    let fp = input.fingerprint();
+    let input = input.clone();
+    match seeded(mix(fp, 0x17), move || check_seeded(&input, fp)) {
+        Ok(o) => o,
+        Err(o) => o,
+    }
+}
+
+fn check_seeded(input: &Input, fp: u64) -> Result<Outcome, Outcome> {
+    let first = first_run(input, fp)?;
+    let mut a = first.rendered.clone();
+    a.sort();
+    // repeatability: two further independent runs. Every `HashMap` created on this thread draws
+    // fresh hasher keys from the seeded stream, so each run sees different iteration orders.
+    for pass in ["second", "third"] {
+        let mut b = run_front(input, pass)?.rendered;
+        b.sort();
+        if a != b {
+            let only_a: Vec<&String> = a.iter().filter(|x| !b.contains(x)).collect();
+            let only_b: Vec<&String> = b.iter().filter(|x| !a.contains(x)).collect();
+            let kind = only_a.first().or(only_b.first()).map(|s| title_kind(s)).unwrap_or_default();
+            let show = |v: &Vec<&String>| v.iter().map(|s| s.lines().take(14).collect::<Vec<_>>().join("\n")).collect::<Vec<_>>().join("\n--\n");
+            return Err(Outcome::fail(
+                format!("repeat:diagnostics-differ:{}", kind),
+                format!(
+                    "the first and the {} run over the same input report different diagnostics ({} vs {})\nonly in the first run:\n{}\nonly in the {} run:\n{}",
+                    pass,
+                    a.len(),
+                    b.len(),
+                    show(&only_a),
+                    pass,
+                    show(&only_b),
+                ),
+            ));
+        }
+    }
+    Ok(Outcome::Pass(PassInfo { nontrivial: first.nontrivial, fp, classes: first.classes }))
+}
+
+fn first_run(input: &Input, fp: u64) -> Result<First, Outcome> {
+    let mut classes: Vec<&'static str> = vec![];
+    let all_text = || std::iter::once(input.source.as_str()).chain(input.others.iter().filter_map(|o| o.source.as_deref()));
+    if all_text().any(|s| s.contains('\r')) {
+        classes.push("has-cr");
+    }
+    if all_text().any(|s| !s.is_ascii()) {
+        classes.push("has-multibyte");
+    }
+    if all_text().any(|s| s.contains('\0')) {
+        classes.push("has-nul");
+    }
+    if !input.others.is_empty() {
+        classes.push("has-resolvable-schemas");
+    }
+
+    let run1 = run_front(input, "first")?;
+    let p = &run1.parser;
+
+    // formatting, when the API permits it
+    let io_names: Vec<&str> = input.others.iter().filter(|o| o.source.is_none()).map(|o| o.name.as_str()).collect();
+    let fmt = catch(|| match Formatter::new(p) {
+        Ok(f) => Ok(f.to_string()),
+        Err(errs) => Err(errs.iter().map(|e| e.schema_name().to_string()).collect::<Vec<_>>()),
+    });
+    let mut main_syntax_error = false;
+    match fmt {
+        Err(pn) => {
+            return Err(Outcome::fail(format!("panic:format:{}", pn.location()), format!("Formatter panicked: {}", pn.0)));
+        }
+        Ok(Ok(_text)) => classes.push("formatted"),
+        Ok(Err(names)) => {
+            classes.push("format-refused");
+            for n in &names {
+                if io_names.contains(&n.as_str()) {
+                    continue;
+                }
+                if *n == input.name {
+                    main_syntax_error = true;
+                } else {
+                    classes.push("imported-syntax-error");
+                }
+            }
+        }
+    }
+    if main_syntax_error {
+        classes.push("syntax-error");
+    } else {
+        classes.push("past-grammar");
+    }
+
+    let doc_link_warnings = run1.titles.iter().filter(|t| t.starts_with("warning: broken doc link")).count();
+    if doc_link_warnings > 0 {
+        classes.push("doc-link-warning");
+    }
+    if !p.other_warnings().is_empty() {
+        classes.push("other-schema-warning");
+    }
+    if run1.titles.iter().any(|t| t.starts_with("error: schema `") && t.ends_with("not found")) {
+        classes.push("multi:missing-import");
+    }
+    if !io_names.is_empty() && p.errors().iter().any(|e| io_names.contains(&e.schema_name())) {
+        classes.push("multi:io-error");
+    }
+
+    // code generation
+    let has_errors = !p.errors().is_empty();
+    if !has_errors {
+        classes.push("no-errors");
+        for bits in 0..32u32 {
+            let mut o = Options::new();
+            o.client = bits & 1 != 0;
+            o.server = bits & 2 != 0;
+            o.introspection = bits & 4 != 0;
+            let mut ro = RustOptions::new();
+            if bits & 8 != 0 {
+                ro.introspection_if = Some("introspection");
+            }
+            if bits & 16 != 0 {
+                ro.krate = Some("::my::aldrin_crate");
+            }
+            match catch(|| Generator::new(&o, p).rust(&ro).map(|out| out.module_content.len())) {
+                Ok(_) => {}
+                Err(pn) => {
+                    return Err(Outcome::fail(
+                        format!("panic:codegen:{}", pn.location()),
+                        format!("Generator::rust panicked (client={} server={} introspection={} introspection_if={:?} krate={:?}): {}", o.client, o.server, o.introspection, ro.introspection_if, ro.krate, pn.0),
+                    ));
+                }
+            }
+        }
+        classes.push("codegen-ran");
+    } else {
+        classes.push("has-errors");
+        let o = Options::new();
+        let ro = RustOptions::new();
+        match catch(|| Generator::new(&o, p)) {
+            Err(_) => classes.push("codegen-gated"),
+            Ok(g) => match catch(|| g.rust(&ro).map(|out| out.module_content.len())) {
+                Ok(Err(_)) => classes.push("codegen-gated"),
+                Ok(Ok(n)) => {
+                    return Err(Outcome::fail(
+                        "codegen-gate:reachable-with-errors",
+                        format!("Generator::new accepted a parser with {} error(s) and Generator::rust produced {} bytes", p.errors().len(), n),
+                    ))
+                }
+                Err(pn) => {
+                    return Err(Outcome::fail(
+                        "codegen-gate:reachable-with-errors",
+                        format!("Generator::new accepted a parser with {} error(s); Generator::rust then panicked: {}", p.errors().len(), pn.0),
+                    ))
+                }
+            },
+        }
+        if fp % 200 == 0 {
+            match cli_binary() {
+                Some(bin) => match cli_gate(&bin, input) {
+                    Ok(true) => classes.push("cli-checked"),
+                    Ok(false) => classes.push("cli-not-applicable"),
+                    Err(o) => return Err(o),
+                },
+                None => classes.push("cli-skipped"),
+            }
+        }
+    }
+
+    let nontrivial = !main_syntax_error || doc_link_warnings > 0;
+    Ok(First { rendered: run1.rendered, classes, nontrivial })
+}
